@@ -139,6 +139,7 @@ def build_client_scenarios(g, tier, rnd):
             # Close() while the handshake is still waiting for the stream's response headers
             scen.append({"client": client, "fault": "clientclose", "at": "connect-stall", "model_at": "b0", "ncalls": 1, "ctx": "deadline"})
             scen.append({"client": client, "fault": "clientclose", "at": "connect-stall2", "model_at": "b0", "ncalls": 1, "ctx": "deadline"})
+            scen.append({"client": client, "fault": "clientclose", "at": "endpoint-stall2", "model_at": "b0", "ncalls": 1, "ctx": "deadline"})
         if client in ("legacy", "stdio"):
             scen.append({"client": client, "fault": "race-cancel", "model_fault": "stall", "at": "done", "model_at": "done", "ncalls": 1, "ctx": "race"})
             scen.append({"client": client, "fault": "race-close", "model_fault": "clientclose", "at": "done", "model_at": "done", "ncalls": 1, "ctx": "race"})
